@@ -53,6 +53,25 @@ def change_value(v):
     return None
 
 
+def change_kind(v):
+    """the same text as a value of another kind (only kinds the library's == is able to tell apart:
+    it cannot tell 1 from True or 1.0, see C01's statement)"""
+    k = v[0]
+    if k == "qn" and not v[1].startswith(PROV_URI):
+        return [("uri", v[1]), ("str", v[1])]
+    if k == "uri":
+        return [("str", v[1])] + ([("qn", v[1])] if v[1].startswith("http://") and not v[1].endswith("/") else [])
+    if k == "str" and v[1]:
+        return [("lit", v[1], "http://a/dt", None), ("lit", v[1], PROV_URI + "InternationalizedString", "en")]
+    if k == "int":
+        return [("str", str(v[1]))]
+    if k == "lit" and v[3] is None:
+        return [("str", v[1])]
+    if k == "lit":
+        return [("str", v[1]), ("lit", v[1], v[2], v[3] + "-x")]
+    return []
+
+
 def variants(mdoc):
     """yield (label, expected 'same'|'diff', model document)"""
     top, bundles = mdoc
@@ -102,6 +121,9 @@ def variants(mdoc):
                 nv = change_value(v)
                 if nv is not None and (a, nv) not in attrs:
                     yield "change-value[%d,%d,%d]" % (ci, i, j), "diff", put((t, ident, attrs[:j] + ((a, nv),) + attrs[j + 1:]))
+                for nk in change_kind(v):
+                    if (a, nk) not in attrs and not (a.startswith(PROV_URI) and a[len(PROV_URI):] not in ("type", "label", "value", "location", "role")):
+                        yield "change-kind[%d,%d,%d]%s" % (ci, i, j, nk[0]), "diff", put((t, ident, attrs[:j] + ((a, nk),) + attrs[j + 1:]))
                 yield "remove-attr[%d,%d,%d]" % (ci, i, j), "diff", put((t, ident, attrs[:j] + attrs[j + 1:]))
                 if not a.startswith(PROV_URI):
                     yield "rename-attr[%d,%d,%d]" % (ci, i, j), "diff", put(
